@@ -397,6 +397,14 @@ def rc_check(prop, tier, spec, replay=None):
                     for _ in range(spec["confirm_replays"]):
                         rc2, _o = replay_rc(exe, prop, dst, extra_env)
                         fails += rc2 != 0
+                    if fails == 0 and os.path.exists(r["fail"] + ".first"):
+                        # the shrunk case fails too rarely: fall back to the case as it was generated
+                        dst1 = save_replay(prop, tier, r["seed"], r["fail"] + ".first", tag="-asgenerated")
+                        for _ in range(spec["confirm_replays"]):
+                            rc2, _o = replay_rc(exe, prop, dst1, extra_env)
+                            fails += rc2 != 0
+                        if fails:
+                            dst = dst1
                     if fails == 0:
                         cov.setdefault("unconfirmed", []).append(dst)
                         log("[%s] failure did not reproduce in %d replays: %s (recorded as inconclusive)" % (prop, spec["confirm_replays"], dst))
